@@ -93,6 +93,12 @@ CheckUpd(m, e) ==
          IF e.val # m.cur THEN "keeps_old_value_until_start"
          ELSE IF e.fin THEN "no_spurious_finish"
          ELSE ""
+  \* (a delayed or clock-started tween of zero duration whose start falls exactly on the end of this update: "from the end of
+  \*  the tween onward equals the target" allows the target now, "takes effect at the next update" allows it one update later)
+  ELSE IF a.hi = 0 /\ a.dur = 0 THEN
+         IF e.fin /\ e.val = a.tgt /\ e.exact THEN ""
+         ELSE IF ~e.fin /\ e.val = m.cur THEN ""
+         ELSE "zero_duration_takes_effect_at_next_update"
   ELSE \* run
          IF ~Between(e.val, a.from, a.tgt, m.tol) THEN "stays_between_start_and_target"
          ELSE IF e.fin /\ ~Ended(a, a.hi) THEN "finish_not_before_end"
